@@ -203,6 +203,8 @@ EXTRA_PROPERTY_FILES = {
     "C05": ["Refine"],
     "C06": ["C06own"],
     "C07": ["Refine"],
+    "C12": ["RefComp"],
+    "C13": ["RefComp"],
     "C14": ["Refine"],
     "C20": ["C20float"],
 }
